@@ -1116,8 +1116,10 @@ class DAGExecution(BaseDAGExecution[P, RVDAG]):
         self._pre_call()
 
         # 2. Execute the scheduler
+        # the scheduler consumes the graph it is given: run on a copy so that a run that fails
+        #  leaves this DAGExecution able to run its complete selection again
         self.xn_dict, self.results, self.profiles = self.dag.run_subgraph(
-            self.graph, self.results, *args
+            deepcopy(self.graph), self.results, *args
         )
 
         return self._post_call()
@@ -1151,8 +1153,10 @@ class AsyncDAGExecution(BaseDAGExecution[P, RVDAG]):
         self._pre_call()
 
         # 2. Execute the scheduler
+        # the scheduler consumes the graph it is given: run on a copy so that a run that fails
+        #  leaves this DAGExecution able to run its complete selection again
         self.xn_dict, self.results, self.profiles = await self.dag.run_subgraph(
-            self.graph, self.results, *args
+            deepcopy(self.graph), self.results, *args
         )
 
         return self._post_call()
